@@ -438,6 +438,21 @@ package core
 //@   unclaimed #nil-deref@ see above
 //@   unclaimed #type-assert see above
 
+// ---------------------------------------------------------------- used user types exist (C09 "every used user type named anywhere exists")
+// findUserTypes accepts a set of names only if every one of them is a declared user type; it changes neither table.
+//@ func (*JApiCore).findUserTypes
+//@   tag C09 C01
+//@   requires core != nil && core.catalog != nil && core.catalog.UserTypes != nil && core.catalog.UserTypes.mx == 0 && uu != nil && uu.mx == 0
+//@   modifies uu.mx, core.catalog.UserTypes.mx
+//@   ensures uu.mx == 0 && core.catalog.UserTypes.mx == 0
+//@   ensures [C09] isnil(ret) ==> (forall i :: 0 <= i && i < len(uu.order) ==> has(core.catalog.UserTypes.data, uu.order[i]))
+//@   ensures [C09] (exists i :: 0 <= i && i < len(uu.order) && !has(core.catalog.UserTypes.data, uu.order[i])) ==> !isnil(ret)
+//@   loop 1 invariant 0 - 1 <= rangeindex && rangeindex <= rangelen - 1 && rangelen == len(uu.order) && uu.mx == 0 && core.catalog.UserTypes.mx == 0
+//@   loop 1 invariant forall i :: 0 <= i && i <= rangeindex ==> has(core.catalog.UserTypes.data, uu.order[i])
+//@   loop 1 decreases rangelen - rangeindex
+//@   loop 1 invariant (forall x *catalog.UserTypes :: x != core.catalog.UserTypes ==> x.mx == old(x.mx)) && (forall y *catalog.StringSet :: y != uu ==> y.mx == old(y.mx))
+//@   loop 1 frame uu, core.catalog.UserTypes
+
 // ---------------------------------------------------------------- URL paths (C11): the same path twice, paths that differ only in a parameter name
 // dpath(d): the path a directive stands for (its own Path parameter or its URL ancestor's), a pure function of the
 // directive; lastOff(p): the prefix of a path parameter without its last segment (removeLastSegment, pure).
